@@ -322,6 +322,7 @@ def registry():
 # --------------------------------------------------------------------------- sorts
 Str = z3.DeclareSort('Str')          # opaque strings (equality only) -- DESIGN 4.3
 Bytes = z3.DeclareSort('Bytes')
+PyObj = z3.DeclareSort('PyObj')      # opaque python objects (attrs instances we do not look into)
 
 _SORTS = {}
 _ACC = {}
@@ -347,6 +348,8 @@ def scalar_sort(kind):
         return Bytes
     if kind == 'float':
         return XRealSort()
+    if kind == 'pyobj':
+        return PyObj
     raise KeyError(kind)
 
 
@@ -435,6 +438,9 @@ class SymList:
     def wrap(self, term):
         if isinstance(self.elem, MsgSchema):
             return Msg.from_term(self.elem, term)
+        if self.elem == 'pyobj':
+            from . import models
+            return models.OpaqueObj(term)
         return term
 
     def get(self, i):
